@@ -459,8 +459,6 @@ def fail_once(ck, key, what, replay, no_failing_input=False, dedupe=None):
 def run(ck):
     import numpy as np
 
-    from diffpy.structure import lattice as latmod
-
     ok, info = ck.lean_obligations("DS.Props.C01")
     quick = ck.tier == "quick"
     ncell = 400 if quick else 20000
@@ -491,7 +489,6 @@ def run(ck):
             for u, v in pairs:
                 q += ["cart", fl(u), "frac", fl(v), "norm", fl(u), "rnorm", fl(u), "dot", fl(u), fl(v), "dist", fl(u), fl(v),
                       "angle", fl(u), fl(v), "dot", fl(u0), fl(v), "dist", fl(u0), fl(v), "angle", fl(u0), fl(v)]
-            iso = None
             lines.append("lat.q " + " ".join(q))
         outs = common.driver(lines)
         for (ct, pairs), o in zip(chunk, outs):
@@ -597,10 +594,20 @@ def run(ck):
     ck.assumptions += ["IEEE-754 arithmetic, numpy.dot/linalg.inv and libm are modelled (theorems over R; correspondence tolerance 1e-9*scale)",
                        "numpy.linalg.inv is modelled by the adjugate formula",
                        "cells are generated well-conditioned (unit volume >= 0.3, angles in [30,150] degrees)"]
+    if ok and not quick:
+        leanchecker(ck, "DS.Props.C01")
     if not ok and not ck.violations:
         fail_once(ck, "lean-build", "Lean obligations of C01 no longer check: %r" % info["failed_modules"],
                 {"kind": "proof-obligation", "theorem": info["failed_modules"], "errors": info["errors"]}, no_failing_input=True)
-    _ = latmod
+
+
+def leanchecker(ck, module):
+    """thorough tier: re-check the compiled obligations with the external kernel checker"""
+    with common.LeanLock():
+        rc, out, err = common.run(["lake", "env", "leanchecker", module], cwd=common.LEAN, timeout=7200)
+    ck.notes.append("leanchecker %s: rc=%d %s" % (module, rc, (out + err)[-300:]))
+    if rc != 0:
+        raise common.Broken("leanchecker rejected %s: %s" % (module, (out + err)[-1000:]))
 
 
 def describe(ct):
@@ -672,7 +679,10 @@ def aniso_and_cosd(ck, cases, disagreements):
     rng = ck.rng
     lines, meta = [], []
     for ct, _ in cases:
-        lat = build(ct)
+        try:
+            lat = build(ct)
+        except Exception:  # noqa: BLE001  (already reported by the main loop)
+            continue
         iso = np.array(lat.isotropicunit)
         s = rng.choice([0.003, 0.02, 1.0])
         k = rng.randrange(4)
@@ -705,6 +715,11 @@ def aniso_and_cosd(ck, cases, disagreements):
         for kk in (-2, -1, 0, 1, 3):
             xs += [t + 360.0 * kk, t + 360.0 * kk + 1e-9, t + 360.0 * kk - 3e-12]
     xs += [rng.uniform(-720, 720) for _ in range(200)]
+    # every key of the table as the tree under test has it now (an added or altered entry is exercised)
+    from diffpy.structure import lattice as latmod
+
+    for key in sorted(getattr(latmod, "_EXACT_COSD", {})):
+        xs += [float(key), float(key) - 360.0, 90.0 - float(key)]
     outs = common.driver(["lat.cosd " + bits(x) for x in xs] + ["lat.sind " + bits(x) for x in xs])
     for i, x in enumerate(xs):
         for f, o, ref, nm in ((cosd, outs[i], math.cos, "cosd"), (sind, outs[len(xs) + i], math.sin, "sind")):
